@@ -45,6 +45,13 @@ def cmpTable (n : Nat) := opTable compareOps n lowerCmp
 def shorthandTable (n : Nat) := opTable (assignOps.filter (· ≠ "=")) n lowerShorthand
 def unopTable (n : Nat) := opTable unaryArithOps n lowerUnop
 
+/-- comparisons with a named constant on the left / on the right / on both sides: which operand of the CJump is the constant -/
+def cmpShapeTable (_n : Nat) : List (String × String × String × String × Bool × Bool) :=
+  compareOps.flatMap fun op =>
+    let row (t side : String) (l r : Bool) := (op, t, side, (lowerCmpOperands op l r).1, (lowerCmpOperands op l r).2.1, (lowerCmpOperands op l r).2.2)
+    [row "int" "left" true false, row "int" "right" false true, row "byte" "left" true false, row "byte" "right" false true,
+     row "int" "both" true true]
+
 /-- `a + b` for every ordered pair of differently named types that the type checker accepts -/
 def mixedTable (n : Nat) : List (String × String × String × String) :=
   (pairs n).filterMap fun (a, b) =>
